@@ -1,0 +1,22 @@
+//go:build verif
+// +build verif
+
+package css_parser
+
+import (
+	"fmt"
+	"sort"
+	"strings"
+)
+
+// This file is only compiled with the "verif" build tag.
+
+// VerifOptionsDigest renders every parser option by value
+func VerifOptionsDigest(o *Options) string {
+	var prefixes []string
+	for k, v := range o.cssPrefixData {
+		prefixes = append(prefixes, fmt.Sprintf("%d:%d", k, v))
+	}
+	sort.Strings(prefixes)
+	return fmt.Sprintf("rest=%+v;prefix=%s;", o.optionsThatSupportStructuralEquality, strings.Join(prefixes, ","))
+}
